@@ -508,4 +508,19 @@ class ReviseAnno:
         Returns:
             A pandas object of the revised TE data.
         """
-        return pd.read_csv(filename, header="infer", sep="\t")
+        # NB identifiers are text, even when they look like numbers ('2',
+        # '10', '007'), use the same types as import_filtered_TEs
+        return pd.read_csv(
+            filename,
+            header="infer",
+            sep="\t",
+            dtype={
+                "Start": "float64",
+                "Stop": "float64",
+                "Length": "float64",
+                "Chromosome": str,
+                "Strand": str,
+                "Order": str,
+                "SuperFamily": str,
+            },
+        )
